@@ -104,8 +104,10 @@ func FakeCid(r *verifutil.Rng) []byte {
 }
 
 // identity helpers on the canonical view
-func (w *World) Identity(a common.Address) state.Identity { return w.View().AppState.State.GetIdentity(a) }
-func (w *World) Balance(a common.Address) *big.Int         { return w.View().AppState.State.GetBalance(a) }
+func (w *World) Identity(a common.Address) state.Identity {
+	return w.View().AppState.State.GetIdentity(a)
+}
+func (w *World) Balance(a common.Address) *big.Int { return w.View().AppState.State.GetBalance(a) }
 
 func (w *World) pickActor(r *verifutil.Rng, pred func(a *Actor, id state.Identity) bool) *Actor {
 	l := w.SortedActors()
@@ -226,7 +228,9 @@ func (w *World) RandomTx(r *verifutil.Rng, hostilePct int) *Gen {
 		}
 		return mk("Delegate", w.Tx(from, types.DelegateTx, &to, nil, nil))
 	case 6: // undelegate
-		from := w.pickActor(r, func(a *Actor, id state.Identity) bool { return id.Delegatee() != nil || st.DelegationSwitch(a.Addr) != nil })
+		from := w.pickActor(r, func(a *Actor, id state.Identity) bool {
+			return id.Delegatee() != nil || st.DelegationSwitch(a.Addr) != nil
+		})
 		if from == nil {
 			return nil
 		}
@@ -697,7 +701,9 @@ func (w *World) ExactCapTxs(r *verifutil.Rng, twin *Replica) []*Gen {
 		call(attachments.CreateCallContractAttachment("push", dest.Bytes(), Dna(1).Bytes()))
 	}
 	feeRate := st.FeePerGas()
-	budget := func(gas int) *big.Int { return new(big.Int).Add(new(big.Int).Mul(feeRate, big.NewInt(int64(gas)*3)), Dna(1)) }
+	budget := func(gas int) *big.Int {
+		return new(big.Int).Add(new(big.Int).Mul(feeRate, big.NewInt(int64(gas)*3)), Dna(1))
+	}
 	tailGas := fee.CalculateGas(SignedTx(from, types.SendTx, &dest, Dna(1), budget(3000), nil, nonce+2, ep, nil))
 	for _, cd := range cands {
 		// measure: the contract tx alone, as the first tx of the sender
